@@ -544,6 +544,21 @@ func registerTimeIntrinsics(reg regFn) {
 		return in.callFn(fr, fn, a, nil, site)
 	})
 	reg("runtime.GOROOT", func(in *Interp, fr *frame, fn *ssa.Function, a []Value, site string) Value { return mkStr("/go") })
+	// time.Until(zero Time): the repository disarms deadlines with SetReadDeadline(time.Time{}) and the
+	// UDP connection then computes time.Until of it; Time.Sub's overflow test multiplies a symbolic
+	// second count by 1e9 (stalls every solver). The zero Time lies > 292 years before any modelled
+	// "now" (sec0 >= 1.6e9), so the result is the saturated minimum.
+	reg("time.Until", func(in *Interp, fr *frame, fn *ssa.Function, a []Value, site string) Value {
+		if sv, ok := a[0].(StructV); ok && len(sv) == 3 {
+			w, ok1 := sv[0].(*Term)
+			e, ok2 := sv[1].(*Term)
+			if ok1 && ok2 && w.IsConst() && e.IsConst() && w.c == 0 && e.c == 0 {
+				in.e.assumptions["time.Until(zero Time) = minimum Duration (the modelled wall clock is later than year 293)"] = true
+				return BV(1<<63, 64)
+			}
+		}
+		return in.callFn(fr, fn, a, nil, site)
+	})
 	reg("time.initLocal", func(in *Interp, fr *frame, fn *ssa.Function, a []Value, site string) Value { return nil })
 	reg("syscall.Getenv", func(in *Interp, fr *frame, fn *ssa.Function, a []Value, site string) Value {
 		return TupleV{mkStr(""), tFalse}
